@@ -68,8 +68,6 @@ impl TombstoneLog {
         tombstones: &mut Vec<Tombstone>,
     ) -> Result<Self> {
         let mut recovered = vec![];
-        // Sequence of every slot, in ring order (0 = empty).
-        let mut sequences = vec![];
 
         for partition in partitions.iter() {
             for offset in (0..partition.size()).step_by(PAGE) {
@@ -78,35 +76,40 @@ impl TombstoneLog {
                 let (buffer, res) = io_engine.read(Box::new(buf), partition.as_ref(), offset as u64).await;
                 res?;
 
-                for buf in buffer.chunks_exact(Tombstone::SERIALIZED_LEN) {
+                let mut seq = 0;
+                let mut addr = 0;
+
+                for (slot, buf) in buffer.chunks_exact(Tombstone::SERIALIZED_LEN).enumerate() {
                     let tombstone = Tombstone::read(buf);
-                    sequences.push(tombstone.sequence);
+                    if tombstone.sequence > seq {
+                        seq = tombstone.sequence;
+                        addr = offset + slot * Tombstone::SERIALIZED_LEN;
+                    }
                     if tombstone.sequence == 0 {
                         continue;
                     }
-                    recovered.push(tombstone);
+                    recovered.push((tombstone, addr));
                 }
             }
         }
 
         tracing::trace!(?recovered, "[tombstone log]: recovered tombstones");
 
-        // The log is a ring that is written at its tail. Going round it, the sequences rise - up to the interleaving
-        // of concurrent flushers, whose batches are not appended in sequence order - and drop once: from the newest
-        // tombstones to the oldest ones (or to empty slots). That drop is the tail. The slot after the newest
-        // tombstone is not: tombstones appended after it with a lower sequence would be overwritten.
-        let slots = sequences.len();
-        let slot = if recovered.is_empty() {
-            1
-        } else {
-            (0..slots)
-                .max_by_key(|&slot| sequences[(slot + slots - 1) % slots].saturating_sub(sequences[slot]))
-                .unwrap_or(1)
-        };
+        let latest_tombstone_offset = recovered
+            .iter()
+            .reduce(|a, b| if a.0.sequence > b.0.sequence { a } else { b })
+            .map(|(tombstone, addr)| {
+                tracing::trace!(?tombstone, "[tombstone log]: found latest tombstone");
+                *addr
+            })
+            .unwrap_or_default();
 
-        tombstones.extend(recovered);
+        tombstones.extend(recovered.into_iter().map(|(tombstone, _)| tombstone));
+
+        let latest_tombstone_slot = latest_tombstone_offset / Tombstone::SERIALIZED_LEN;
 
         let pages = partitions.iter().map(|p| p.size()).sum::<usize>() / PAGE;
+        let slot = latest_tombstone_slot + 1;
         let (page, _) = Self::calculate_slot_addr(pages, slot);
         let buffer = PageBuffer::open(io_engine, partitions, page as _).await?;
 
